@@ -329,9 +329,13 @@ static void do_banded(Cur& c, std::ostream& o)
   NV off = c.idxlist(); QV val = qlist(c);
   Tail t(c);
   typedef SparseMatrixBanded<Q, IT_> Mat;
-  auto voff = mk_ivec<IT_>(off); auto vv = mk_vec<IT_>(val);
-  Mat a(rows, cols, vv, voff);
-  auto unchanged = [&]() { return same(a.val(), val) && same(a.offsets(), off); };
+  Mat a;   // default-constructed (0x0, no bands) unless the case has bands
+  if(!(rows == Index(0) && cols == Index(0) && off.empty()))
+  {
+    auto voff = mk_ivec<IT_>(off); auto vv = mk_vec<IT_>(val);
+    a = Mat(rows, cols, vv, voff);
+  }
+  auto unchanged = [&]() { return off.empty() || (same(a.val(), val) && same(a.offsets(), off)); };
   if(op == "dense")
   {
     o << "D " << rows << " " << cols;
